@@ -302,6 +302,13 @@ def directed_scripts(cls, dt):
          [rd, ['SetNFFT', 0], rd, ['SetSides', 'centerdc'], ['SetNFFT', 0], rd, ['SetNFFT', 1], ['SetSides', 'centerdc'], ['SetNFFT', 1], rd],
          [rd, ['SetSampling', D.S2], rd, ['SetSampling', D.S2], rd, ['SetScale', True], rd, ['SetScale', True], rd],
          [rd, ['SetSampling', D.S1], rd, ['SetSampling', D.S1N], rd, ['SetScale', True], rd, ['SetSampling', D.S1], rd, ['SetSampling', D.S1N], ['GetConverted', 'centerdc']],
+         # reading is not writing: every conversion is followed by a read, from every current layout
+         [rd, ['SetSides', 'twosided'], ['GetConverted', 'onesided' if dt == 'real' else 'centerdc'], rd, ['GetConverted', 'centerdc'], rd,
+          ['SetSides', 'centerdc'], ['GetConverted', 'onesided' if dt == 'real' else 'twosided'], rd, ['GetConverted', 'twosided'], rd,
+          ['SetSides', 'default'], ['GetConverted', 'twosided'], rd, ['GetConverted', 'centerdc'], rd],
+         # the record whose length is not a power of two, NFFT by name, frequency scaling on
+         [['SetData', {'data': 2, 'N': D.token_len(dt, 2), 'dt': dt}], ['SetNFFT', 1], ['SetScale', True], rd, ['GetConverted', 'centerdc'],
+          ['SetNFFT', 0], rd, ['SetNFFT', 1], rd],
          [rd, ['SetNFFT', 33], ['GetConverted', 'twosided'], ['SetNFFT', 24], ['GetConverted', 'onesided' if dt == 'real' else 'twosided'],
           ['SetData', {'data': 2, 'N': D.token_len(dt, 2), 'dt': dt}], ['GetConverted', 'centerdc'], rd]]
     if cls.kind == 'parametric':
